@@ -13,6 +13,7 @@ import (
 	"sort"
 	"strings"
 	"sync"
+	"time"
 
 	"github.com/la5nta/wl2k-go/transport"
 
@@ -263,7 +264,7 @@ func (d recDialer) DialURL(u *transport.URL) (net.Conn, error) {
 	return nil, fmt.Errorf("dialer %d", d.id)
 }
 
-var schemes = []string{"va", "vb", "vc"}
+var schemes = []string{"va", "Va", "vb"} // scheme names are compared as they are: "va" and "Va" are two schemes
 
 func concurrentHistory(rng *rand.Rand, procs, opsPer int, hot bool) []rec.Event {
 	for _, s := range schemes {
@@ -358,6 +359,68 @@ func concurrentHistory(rng *rand.Rand, procs, opsPer int, hot bool) []rec.Event 
 	return evs
 }
 
+// blockDialer blocks until released; fwdDialer forwards the call to another scheme through the registry.
+type blockDialer struct{ release chan struct{} }
+
+func (d blockDialer) DialURL(u *transport.URL) (net.Conn, error) {
+	<-d.release
+	return nil, fmt.Errorf("released")
+}
+
+type fwdDialer struct{ to string }
+
+func (d fwdDialer) DialURL(u *transport.URL) (net.Conn, error) {
+	return transport.DialURL(&transport.URL{Scheme: d.to, Target: u.Target})
+}
+
+// progressEvent: while one dial is in progress (its dialer blocks), other register / unregister / dial calls complete, and
+// a dialer may itself dial another scheme through the registry.
+func progressEvent() rec.Event {
+	for _, s := range []string{"pa", "pb", "pc", "pd"} {
+		transport.UnregisterDialer(s)
+	}
+	rel := make(chan struct{})
+	transport.RegisterDialer("pb", blockDialer{rel})
+	blocked := make(chan struct{})
+	go func() { transport.DialURL(&transport.URL{Scheme: "pb", Target: "LA1B"}); close(blocked) }()
+	time.Sleep(50 * time.Millisecond)
+	returned := make(chan bool, 1)
+	go func() {
+		ok := true
+		transport.RegisterDialer("pa", recDialer{id: 7, got: new([]int), mu: new(sync.Mutex)})
+		_, err := transport.DialURL(&transport.URL{Scheme: "pa", Target: "LA1B"})
+		ok = ok && err != nil && err.Error() == "dialer 7"
+		transport.UnregisterDialer("pa")
+		_, err = transport.DialURL(&transport.URL{Scheme: "pa", Target: "LA1B"})
+		ok = ok && err == transport.ErrMissingDialer
+		returned <- ok
+	}()
+	ev := rec.Event{"op": "Progress", "returned": false, "forward": false}
+	select {
+	case ok := <-returned:
+		ev["returned"] = ok
+	case <-time.After(3 * time.Second):
+	}
+	fwd := make(chan bool, 1)
+	go func() {
+		transport.RegisterDialer("pc", recDialer{id: 9, got: new([]int), mu: new(sync.Mutex)})
+		transport.RegisterDialer("pd", fwdDialer{"pc"})
+		_, err := transport.DialURL(&transport.URL{Scheme: "pd", Target: "LA1B"})
+		fwd <- err != nil && err.Error() == "dialer 9"
+	}()
+	select {
+	case ok := <-fwd:
+		ev["forward"] = ok
+	case <-time.After(3 * time.Second):
+	}
+	close(rel)
+	select {
+	case <-blocked:
+	case <-time.After(3 * time.Second):
+	}
+	return ev
+}
+
 func Main(args []string) int {
 	fs := flag.NewFlagSet("url", flag.ExitOnError)
 	vocab := fs.String("vocab", "", "vocabulary json")
@@ -399,6 +462,7 @@ func Main(args []string) int {
 			w.Write(map[string]interface{}{"procs": procs, "hot": hot}, evs)
 			stats["conc_events"] += len(evs)
 		}
+		w.Write(map[string]interface{}{"procs": 0, "hot": false}, []rec.Event{progressEvent()})
 		stats["conc"] = *hist
 	}
 	stats["traces"] = w.Count()
